@@ -17,7 +17,7 @@ from mc.core import Part
 
 LEVEL = 'exploration'
 RULE = ('one case = (function reduce|accumulate, method, length n, initial absent|leaf|None, container '
-        'list|tuple|generator|iterator); every combination is enumerated for ALL n in 0..70 (thorough 0..200). '
+        'list|tuple|generator|iterator); every combination is enumerated for ALL n in 0..130 (thorough 0..520). '
         'The operation is the free monoid (concatenation of label tuples, non-commutative): equality of the '
         'label tuples with those of functools.reduce / itertools.accumulate decides the property for EVERY '
         'associative f. Depth/number of applications are measured by the same f. Additional small families: '
@@ -38,7 +38,7 @@ MANIFEST = dict(
     level='exploration',
     technique='bounded-exhaustive enumeration over all lengths with the free monoid as universal associative operation',
     text='mpctools.reduce and mpctools.accumulate (Brent-Kung, Sklansky, default method under PRSS and --no-prss) for '
-         'ALL lengths 0..70 (thorough 0..200), with/without initial (also initial=None), inputs as list, tuple, '
+         'ALL lengths 0..130 (thorough 0..520), with/without initial (also initial=None), inputs as list, tuple, '
          'generator, iterator. Operation = free monoid on labelled leaves, so in-order equality with '
          'functools.reduce/itertools.accumulate holds for every associative, also non-commutative, f; depth and '
          'number of applications of f measured on the same runs against the documented logarithmic bounds. Plus '
@@ -138,7 +138,7 @@ def check_case(part, mpctools, fn, method, n, initial, container, no_prss):
         if want == 'TypeError':
             part.note('reduce_empty_no_initial', {'returns ' + repr(got)[:40]: 1})
             return
-        got = Monoid.norm(got)
+        got, want = Monoid.norm(got), Monoid.norm(want)
         if got[0] != want[0]:
             part.violation(f'C32:{cls}:value', f'free-monoid result {got[0]!r:.120} != functools.reduce '
                            f'{want[0]!r:.120} for {case}', case)
@@ -294,7 +294,7 @@ def secure_cases(part, lengths):
 # -- driver ----------------------------------------------------------------------------------
 
 def top(tier):
-    return 70 if tier == 'quick' else 200
+    return 130 if tier == "quick" else 520
 
 
 def jobs(tier, seed):
